@@ -384,7 +384,7 @@ fn serve_tstall_conn(mut s: TcpStream, wrapper: bool, plain: bool, at: Option<ch
     stall_dialogue(&mut t, wrapper, false, at, &done);
 }
 
-/// `tstall <client s|a|c> <T ms> <mode w|r|p> <at h|g|e|s|m|z>`: two sends through a transport with timeout T and TLS (implicit
+/// `tstall <client s|a|c> <T ms> <mode w|r|o|p> <at h|g|e|s|m|z>`: two sends through a transport with timeout T and TLS (implicit
 /// or required STARTTLS) against a peer whose first connection goes silent at `at`; later connections are served to the
 /// end. Reports `result@is_timeout@ms` per send.
 pub fn tstall(args: &[&str]) -> Option<Vec<String>> {
@@ -397,7 +397,7 @@ pub fn tstall(args: &[&str]) -> Option<Vec<String>> {
     let params = tls_params("1001")?;
     let (wrapper, plain) = match mode {
         "w" => (true, false),
-        "r" => (false, false),
+        "r" | "o" => (false, false),
         // no TLS at all (the same positions on a clear-text connection; used with client `c`)
         "p" => (false, true),
         _ => return None,
@@ -406,6 +406,9 @@ pub fn tstall(args: &[&str]) -> Option<Vec<String>> {
         Tls::None
     } else if wrapper {
         Tls::Wrapper(params)
+    } else if mode == "o" {
+        // the peer offers STARTTLS, so the opportunistic client asks for it
+        Tls::Opportunistic(params)
     } else {
         Tls::Required(params)
     };
